@@ -274,7 +274,10 @@ class Evolver:
         self.edits.append({"edit": "E8-override-chain", "base": b, "property": q["name"], "type": nt, "mid": mid, "leaf": leaf})
 
     FOCI = ["ornull-first", "ornull-last", "literal", "tuple", "map", "array", "ref-enum", "ref-alias", "ref-struct", "base",
-            "override-chain", "keyword-name", "message", "enum-value", "remove-optional", "new-structure"]
+            "override-chain", "keyword-name", "message", "enum-value", "remove-optional", "new-structure",
+            # productions that once exposed a defect (kept as a standing floor)
+            "message-no-typename", "rust-keyword-name", "base-regexp", "empty-struct-property", "request-no-typename"]
+    RUST_AND_PYTHON_KEYWORDS = ["in", "for", "as", "if", "else", "while", "continue", "break", "return", "async", "await", "try", "yield"]
 
     def e_focus(self, focus: str) -> None:
         """one edit that is guaranteed to exercise the named production (generation floor of a run)."""
@@ -282,6 +285,16 @@ class Evolver:
             return self.e_override_chain()
         if focus == "message":
             return self.e_new_message()
+        if focus in ("message-no-typename", "request-no-typename"):
+            return self.e_new_message(with_type_name=False, is_request=True if focus.startswith("request") else None)
+        if focus == "rust-keyword-name":
+            return self.e_new_property(keyword=True, keyword_pool=self.RUST_AND_PYTHON_KEYWORDS)
+        if focus == "base-regexp":
+            return self.e_new_property(force="base", base_name="RegExp")
+        if focus == "empty-struct-property":
+            empties = [s for s in self.doc["structures"] if not s["properties"] and not s.get("extends") and not s.get("mixins")
+                       and s["name"] not in self.union_alternatives]
+            return self.e_new_property(target=self.pick(empties)["name"]) if empties else self.e_new_property()
         if focus == "enum-value":
             self.e_new_enum()
             return self.e_new_enum_value()
@@ -292,10 +305,11 @@ class Evolver:
         return self.e_new_property(force=None if focus == "keyword-name" else focus, keyword=(focus == "keyword-name"),
                                    optional=False if focus.startswith("ornull") else None)
 
-    def e_new_property(self, force: Optional[str] = None, keyword: bool = False, optional: Optional[bool] = None) -> None:
+    def e_new_property(self, force: Optional[str] = None, keyword: bool = False, optional: Optional[bool] = None,
+                       keyword_pool: Optional[List[str]] = None, base_name: Optional[str] = None, target: Optional[str] = None) -> None:
         cands = [s for s in self.doc["structures"] if not s["name"].startswith("_") and s["name"] != "LSPObject"
                  and s["name"] not in self.union_alternatives]
-        s = self.pick(cands)
+        s = self.pick(cands) if target is None else [x for x in self.doc["structures"] if x["name"] == target][0]
         m = Model(self.doc)
         local = {p["name"] for p in m.flat_props(s["name"])}
         # also the properties of every structure that inherits from s
@@ -303,8 +317,10 @@ class Evolver:
             if s["name"] in m.ancestors(other["name"]):
                 local |= {p["name"] for p in m.flat_props(other["name"])}
         p = self.new_property(local, force=force, optional=optional)
+        if base_name:
+            p["type"] = {"kind": "base", "name": base_name}
         if keyword:
-            free = [k for k in self.kw_names if k not in self.taken_props and k not in local]
+            free = [k for k in (keyword_pool or self.kw_names) if k not in self.taken_props and k not in local]
             if free:
                 p["name"] = self.pick(free)
         s["properties"].append(p)
@@ -354,17 +370,19 @@ class Evolver:
     def _struct_ref(self) -> dict:
         return {"kind": "reference", "name": self.pick(self.new_structs * 3 + self.base_structs)}
 
-    def e_new_message(self) -> None:
+    def e_new_message(self, with_type_name: Optional[bool] = None, is_request: Optional[bool] = None) -> None:
         self.counter += 1
         word = self.pick(WORDS_L) + self.pick(WORDS_U)
-        is_request = self.draw(st.booleans())
+        if is_request is None:
+            is_request = self.draw(st.booleans())
         prefix = self.pick(["vf/", "$/vf", "textDocument/vf", "vf/sub/"])
         method = f"{prefix}{word}{self.counter}" if not prefix.endswith("vf") else f"{prefix}{word.capitalize()}{self.counter}"
         existing = {m["method"].lstrip("$/") for m in self.doc["requests"] + self.doc["notifications"]}
         if method.lstrip("$/") in existing:
             return
         msg: Dict[str, Any] = {"method": method, "messageDirection": self.pick(["clientToServer", "serverToClient", "both"])}
-        with_type_name = self.draw(st.booleans())
+        if with_type_name is None:
+            with_type_name = self.draw(st.booleans())
         if with_type_name:
             msg["typeName"] = self.fresh_type_name("Vm") + ("Request" if is_request else "Notification")
         if self.draw(st.booleans()):
@@ -433,8 +451,8 @@ class Evolver:
         self.edits.append({"edit": "E7-remove-optional", "structure": s["name"], "property": p["name"]})
 
     def run(self, n_edits: int, focus: Optional[str] = None) -> None:
-        if focus:
-            self.e_focus(focus)
+        for f in (focus.split("+") if focus else []):
+            self.e_focus(f)
         table = [
             ("E1", self.e_new_structure), ("E1", self.e_new_structure), ("E2", self.e_new_property), ("E2", self.e_new_property),
             ("E3", self.e_new_enum), ("E4", self.e_new_enum_value), ("E5", self.e_new_message), ("E5", self.e_new_message),
